@@ -213,6 +213,24 @@ func init() {
 		return IfaceV{T: t, V: OpaqueV{T: t, ID: s.nOpaque, Tag: "context"}}, false
 	}
 	stubs["context.TODO"] = stubs["context.Background"]
+	// the process environment is empty (SCRAPE_PROXY and friends unset)
+	stubs["os.Getenv"] = func(w *Worker, s *State, f *Frame, fn *ssa.Function, a []Value, d int) (Value, bool) {
+		return w.tc.Str(""), false
+	}
+	// reflect.DeepEqual on values without symbolic parts: structural comparison of the rendered
+	// object graphs
+	stubs["reflect.DeepEqual"] = func(w *Worker, s *State, f *Frame, fn *ssa.Function, a []Value, d int) (Value, bool) {
+		r1 := &renderer{tc: w.tc, ids: map[*Obj]int{}}
+		r1.val(a[0])
+		r2 := &renderer{tc: w.tc, ids: map[*Obj]int{}}
+		r2.val(a[1])
+		x, y := r1.sb.String(), r2.sb.String()
+		if (r1.sym || r2.sym) && x != y {
+			// renderings with different symbolic parts cannot be compared textually
+			panic(unsupported{"reflect.DeepEqual on values with symbolic parts"})
+		}
+		return w.tc.Bool(x == y), false
+	}
 	stubs["context.WithTimeout"] = func(w *Worker, s *State, f *Frame, fn *ssa.Function, a []Value, d int) (Value, bool) {
 		return TupleV{a[0], &ClosureV{Native: "cancel"}}, false
 	}
